@@ -76,10 +76,10 @@ def canon_result(r):
     if isinstance(r, fggs.HRG):
         return snap_hrg(r)
     if isinstance(r, list) and r and isinstance(r[0], fggs.HRGRule):
-        h = fggs.HRG(None)
-        for x in r:
-            h.add_rule(x)
-        return snap_hrg(h)['rules']
+        ids = {}
+        nid = lambda v: v.id if isinstance(v.id, str) else ids.setdefault(v.id, f'#{len(ids)}')
+        return [[x.lhs.name, [l.name for l in x.lhs.type], [[nid(v), v.label.name] for v in x.rhs.nodes()],
+                 [[nid(e), e.label.name, [nid(v) for v in e.nodes]] for e in x.rhs.edges()], [nid(v) for v in x.rhs.ext]] for x in r]
     return r
 
 
